@@ -189,6 +189,11 @@ def c4(repo: Repo) -> RuleResult:
                 res.unsure(f"C4: {fi.qual}: argument {k} of {ctor} (`{args[k]}`) has no recognised provenance ({r})")
                 return
             if r.startswith("lit:"):
+                # a property of the definition cannot be a constant of the template
+                if p in ("extensible", "capacity", "cap", "nbits", "nfields", "field_number", "fieldNumber", "fnumber", "nbytes"):
+                    f = Finding("C4", fi.rel, fi.node.lineno, fi.qual, f"{ctor}({', '.join(args)})", f"argument {k + 1} is the constant `{r[4:]}` where the runtime's parameter `{p}` is a property of the definition: every definition this template is used for gets the same value", witness="an extensible message without fields inside another message: its 16-bit prefix is not written", tag=f"{lang}:{fi.qual}:{ctor}:{k}:constant")
+                    f.part = lang
+                    res.bad(f)
                 continue
             if p not in ROLE_EQUIV.get(r, {r}):
                 f = Finding("C4", fi.rel, fi.node.lineno, fi.qual, f"{ctor}({', '.join(args)})", f"argument {k + 1} carries `{r}` but the runtime's parameter {k + 1} means `{p}`", witness="the processor tree is built with swapped extensible/capacity/nbits: wrong layout", tag=f"{lang}:{fi.qual}:{ctor}:{k}")
@@ -250,6 +255,26 @@ def c4(repo: Repo) -> RuleResult:
                 continue
             if params is not None:
                 check_site("py", fi, ctor, args, params, {"field_processors": "field_processors"})
+    # every other format_processor* method of the formatter that spells a runtime constructor itself
+    try:
+        pf_cls = m.cls("PyFormatter", "impls/py/formatter.py")
+        listed = {q_.split(".")[1] for _r, q_ in sites}
+        for mname_, fi_x in sorted(pf_cls.methods.items()):
+            if not mname_.startswith("format_processor") or mname_ in listed:
+                continue
+            try:
+                texts_x = site_texts(repo, "impls/py/formatter.py", f"PyFormatter.{mname_}")
+            except Inconclusive:
+                continue
+            for t_x in texts_x:
+                for ctor, args in ctor_calls_in_text(t_x, "bp."):
+                    if ctor not in pparams or ctor not in ROLE_AT:
+                        continue
+                    params = runtime_roles("py", PL, ctor)
+                    if params is not None:
+                        check_site("py", fi_x, ctor, args, params, {"field_processors": "field_processors"})
+    except Inconclusive as e:
+        res.unsure(f"C4: {e}")
     # encode/decode contexts
     for qual, flag in (("BlockMessageMethodEncode.render", "True"), ("BlockMessageMethodDecode.render", "False")):
         fi = m.func("impls/py/renderer.py", qual)
